@@ -74,6 +74,7 @@ class ExcVal:
     args: tuple = ()
     cause: Any = None
     origin: str = ""  # where it was raised (label)
+    attrs: dict = field(default_factory=dict)
 
     def __repr__(self):
         return f"<exc {self.cls} @{self.origin}>"
@@ -629,6 +630,8 @@ class Interp:
                 else:
                     obj.attrs[t.attr] = v
                     self.ctx.mutated(obj)
+            elif isinstance(obj, ExcVal):
+                obj.attrs[t.attr] = v
             else:
                 raise Unsupported("attribute store on non-record", t)
         elif isinstance(t, ast.Subscript):
@@ -1006,8 +1009,7 @@ class Interp:
             else:
                 try:
                     x = self.eval(v.value, env)
-                except Unsupported:
-                    x = None
+                except (Unsupported, BoundMethod):  # message text only: unconstrained
                     parts.append(self.ctx.fresh("fstr", z3.StringSort()))
                     continue
                 if isinstance(x, str) and v.conversion == -1:
@@ -1387,6 +1389,8 @@ class Interp:
         if isinstance(obj, ExcVal):
             if attr == "args":
                 return obj.args
+            if attr in obj.attrs:
+                return obj.attrs[attr]
             raise Unsupported(f"attribute {attr!r} of exception", node)
         h = self.hooks.get("getattr")
         if h is not None:
